@@ -9,6 +9,107 @@ theorem EnvEq.rfl' (s : St) (m : List Nat) (q : List (List Nat)) (j : Option Job
     EnvEq s { s with members := m, queue := q, job := j } :=
   ⟨rfl, rfl, rfl, rfl, rfl, rfl, rfl, rfl, rfl⟩
 
+/-! ### listings by the consumer: the steps touch nothing but the listings -/
+
+/-- a step that touched only the listings (`lists`, `lgen`, `done`) -/
+structure ListsOnly (s s1 : St) : Prop where
+  env : EnvEq s s1
+  members : s1.members = s.members
+  queue : s1.queue = s.queue
+  job : s1.job = s.job
+
+theorem ListsOnly.of (s : St) (g : Nat) (ls : List Lst) (d : List (Nat × List Nat)) :
+    ListsOnly s { s with lgen := g, lists := ls, done := d } :=
+  ⟨⟨rfl, rfl, rfl, rfl, rfl, rfl, rfl, rfl, rfl⟩, rfl, rfl, rfl⟩
+
+theorem upd_isEmpty (i : Nat) (f : Lst → Lst) (ls : List Lst) :
+    (Lst.upd i f ls).isEmpty = ls.isEmpty := by
+  cases ls with
+  | nil => rfl
+  | cons x xs => simp only [Lst.upd]; split <;> rfl
+
+theorem listStep_shape {cfg : Cfg} {s s1 : St} {nxt : Option Nat} (h : listStep cfg s nxt = some s1) :
+    ListsOnly s s1 ∧ (s1.lists.isEmpty = true → s.lists.isEmpty = true) := by
+  unfold listStep at h
+  cases nxt with
+  | none =>
+    simp only at h
+    split at h
+    · injection h with h; subst h
+      exact ⟨ListsOnly.of s _ _ _, fun h => h⟩
+    · cases h
+  | some n =>
+    simp only at h
+    split at h
+    · injection h with h; subst h
+      refine ⟨ListsOnly.of s _ _ _, ?_⟩
+      intro h; simp at h
+    · cases h
+
+theorem lserveStep_shape {s s1 : St} {i : Nat} (h : lserveStep s i = some s1) :
+    ListsOnly s s1 ∧ (s1.lists.isEmpty = true → s.lists.isEmpty = true) := by
+  unfold lserveStep at h
+  split at h
+  · split at h
+    · injection h with h; subst h
+      refine ⟨ListsOnly.of s _ _ _, ?_⟩
+      simp only [upd_isEmpty]; exact fun h => h
+    · cases h
+  · cases h
+
+/-- the answer reaches a listing: either it reads on (nothing but the listings changes, no
+    notification), or it returns — then the worker is woken in a state that differs from the old
+    one in the listings only -/
+theorem lretStep_cases {s s' : St} {i : Nat} {nxt : Option Nat} {ns : List Note}
+    (h : lretStep s i nxt = some (s', ns)) :
+    (ListsOnly s s' ∧ (s'.lists.isEmpty = true → s.lists.isEmpty = true) ∧ ns = []) ∨
+    (∃ s1, ListsOnly s s1 ∧ wake s1 nxt = some (s', ns)) := by
+  unfold lretStep at h
+  split at h
+  · rename_i l _
+    split at h
+    · simp only at h
+      split at h
+      · exact Or.inr ⟨_, ListsOnly.of s _ _ _, h⟩
+      · cases nxt with
+        | none => cases h
+        | some m =>
+          simp only at h
+          split at h
+          · simp only [Option.some.injEq, Prod.mk.injEq] at h
+            obtain ⟨h1, h2⟩ := h
+            subst h1; subst h2
+            refine Or.inl ⟨ListsOnly.of s _ _ _, ?_, rfl⟩
+            simp only [upd_isEmpty]; exact fun h => h
+          · cases h
+    · cases h
+  · cases h
+
+theorem synced_of_EnvEq {s s' : St} (h : EnvEq s s') (hs : synced s') : synced s := by
+  unfold synced at *
+  rw [h.cw, h.watched] at hs
+  exact hs
+
+/-- a step that touched only the listings — and did not end the last one — keeps the invariant -/
+theorem lists_only_inv {cfg : Cfg} {s s' : St} (hi : Inv cfg s) (hst : s.started = true)
+    (lo : ListsOnly s s') (hl : s'.lists.isEmpty = true → s.lists.isEmpty = true) : Inv cfg s' := by
+  refine ⟨⟨?_, ?_, ⟨?_, ?_, ?_, ?_⟩⟩, ?_, fun _ => EnvInv_eq lo.env (hi.env hst), fun _ => ?_⟩
+  · rw [lo.env.tree]; exact hi.i0.knd
+  · rw [lo.env.tree]; exact hi.i0.pgen
+  · rw [lo.members]; exact hi.i0.wok.mnd
+  · rw [lo.queue]; exact hi.i0.wok.qnd
+  · intro hj hf
+    rw [lo.queue]
+    exact hi.i0.wok.idle (lo.job ▸ hj) (hl hf)
+  · rw [lo.members, lo.job]; exact hi.i0.wok.jok
+  · intro h; rw [lo.env.started, hst] at h; cases h
+  · exact LastS_mono lo.queue lo.job lo.members lo.env.nodes (synced_of_EnvEq lo.env) (hi.last hst)
+
+theorem ListsOnly.callbackOut {cfg : Cfg} {s s1 : St} (lo : ListsOnly s s1) (he : EnvInv cfg s) :
+    CallbackOut cfg s s1 :=
+  ⟨EnvInv_eq lo.env he, lo.members, lo.job, lo.env.tree,
+    Or.inr ⟨lo.queue, lo.env.nodes, synced_of_EnvEq lo.env⟩⟩
+
 /-! ### serve -/
 
 theorem serve_inv {cfg : Cfg} {s s' : St} (hi : Inv cfg s) (hn : serveStep s = some s') :
@@ -124,14 +225,14 @@ theorem ret_inv {cfg : Cfg} {s s' : St} {nxt : Option Nat} {ns : List Note} (hi 
         rename_i hte
         have hte' : j.todo = [] := List.isEmpty_iff.mp hte
         obtain ⟨f1, f2, f3⟩ := finishJob_spec s.members j.listing _ hi.i0.wok.mnd g1 g2
-        cases hp : pump (finishJob s.members j.listing (if found then j.got ++ [n] else j.got)).1 s.queue nxt with
+        cases hp : pumpB s.lists.isEmpty (finishJob s.members j.listing (if found then j.got ++ [n] else j.got)).1 s.queue nxt with
         | none => rw [hp] at hn; cases hn
         | some w =>
           rw [hp] at hn
           simp only [Option.map_some, Option.some.injEq, Prod.mk.injEq] at hn
           obtain ⟨hn1, hn2⟩ := hn
           subst hn1; subst hn2
-          obtain ⟨hok, ha, hv, hl, he0⟩ := pump_spec s.queue _ nxt w f1 hi.i0.wok.qnd hp
+          obtain ⟨hok, ha, hv, hl, he0⟩ := pumpB_spec _ s.queue _ nxt w f1 hi.i0.wok.qnd hp
           refine ⟨⟨⟨hi.i0.knd, hi.i0.pgen, hok⟩, fun hs => (hnopre hs).elim, ?_, ?_⟩, ?_, ?_, rfl⟩
           · intro hs
             exact EnvInv_eq (EnvEq.rfl' s _ _ _) (hi.env hs)
@@ -248,7 +349,7 @@ theorem after_callback {cfg : Cfg} {s s1 s2 : St} {nxt : Option Nat} {ns : List 
       · exact hi0.wok.qnd x hx
       · simp only [List.mem_singleton] at hx; subst hx; exact hl hi0.knd
     · rw [h]; exact hi0.wok.qnd
-  obtain ⟨hok, ha, hv, heq, hA, hB⟩ := wake_spec (s1 := s1) (by rw [hm]; exact hi0.wok.mnd) hqnd
+  obtain ⟨hok, ha, hv, heq, hL⟩ := wake_spec (s1 := s1) (by rw [hm]; exact hi0.wok.mnd) hqnd
     (by rw [hm, hj]; exact hi0.wok.jok) hw
   rw [hm] at ha hv
   refine ⟨⟨⟨?_, ?_, hok⟩, ?_, fun _ => EnvInv_eq heq he1, fun _ => ?_⟩, ha, hv, by rw [heq.tree, ht]⟩
@@ -256,9 +357,8 @@ theorem after_callback {cfg : Cfg} {s s1 s2 : St} {nxt : Option Nat} {ns : List 
   · rw [heq.tree, ht]; exact hi0.pgen
   · intro h; rw [heq.started, hst] at h; cases h
   · rcases hq with ⟨h, _⟩ | ⟨h1, h2, h3⟩
-    · exact hA h
-    · apply hB _ (LastS_mono h1 hj hm h2 h3 hl)
-      rw [hj, h1]; exact hi0.wok.idle
+    · exact hL (Or.inl h)
+    · exact hL (LastS_mono h1 hj hm h2 h3 hl)
 
 /-! ### every enabled operation -/
 
@@ -327,9 +427,50 @@ theorem next_inv {cfg : Cfg} {s s' : St} {op : Op} {ns : List Note} (hi : Inv cf
   | ret nxt =>
     simp only [next] at hn
     exact ret_inv hi hn
+  | list nxt =>
+    simp only [next] at hn
+    split at hn
+    · rename_i hs
+      cases hl : listStep cfg s nxt with
+      | none => rw [hl] at hn; cases hn
+      | some s1 =>
+        rw [hl] at hn
+        simp only [Option.map_some, Option.some.injEq, Prod.mk.injEq] at hn
+        obtain ⟨h1, h2⟩ := hn
+        subst h1; subst h2
+        obtain ⟨lo, hle⟩ := listStep_shape hl
+        exact ⟨lists_only_inv hi hs lo hle, by simp [altOk], by simp [viewOf, lo.members],
+          by rw [lo.env.tree]; rfl⟩
+    · cases hn
+  | lserve i =>
+    simp only [next] at hn
+    split at hn
+    · rename_i hs
+      cases hl : lserveStep s i with
+      | none => rw [hl] at hn; cases hn
+      | some s1 =>
+        rw [hl] at hn
+        simp only [Option.map_some, Option.some.injEq, Prod.mk.injEq] at hn
+        obtain ⟨h1, h2⟩ := hn
+        subst h1; subst h2
+        obtain ⟨lo, hle⟩ := lserveStep_shape hl
+        exact ⟨lists_only_inv hi hs lo hle, by simp [altOk], by simp [viewOf, lo.members],
+          by rw [lo.env.tree]; rfl⟩
+    · cases hn
+  | lret i nxt =>
+    simp only [next] at hn
+    split at hn
+    · rename_i hs
+      rcases lretStep_cases hn with ⟨lo, hle, hns⟩ | ⟨s1, lo, hw⟩
+      · subst hns
+        exact ⟨lists_only_inv hi hs lo hle, by simp [altOk], by simp [viewOf, lo.members],
+          by rw [lo.env.tree]; rfl⟩
+      · exact after_callback hi.i0 (hi.last hs) (lo.callbackOut (hi.env hs))
+          (by rw [lo.env.started]; exact hs) hw
+    · cases hn
 
 theorem Inv_init (cfg : Cfg) : Inv cfg St.init := by
-  refine ⟨⟨List.nodup_nil, ?_, ⟨List.nodup_nil, ?_, fun _ => rfl, ?_⟩⟩,
+  refine ⟨⟨List.nodup_nil, ?_, ⟨List.nodup_nil, ?_, fun _ _ => rfl, ?_⟩⟩,
     fun _ => ⟨rfl, rfl, rfl, rfl, rfl, rfl, rfl, rfl, rfl, rfl⟩, ?_, ?_⟩
   · intro g hg; simp [St.init, Tree.init] at hg
   · intro l hl; simp [St.init] at hl
